@@ -82,14 +82,14 @@ def build(t, v, time=0):
     return mido.MetaMessage(t, time=time, **real_attrs(t, v))
 
 
-def through_track(msg_bytes, delta):
+def through_track(msg_bytes, delta, **kw):
     """Read the event back from a one-event type-1 file."""
     import mido
     from mido.midifiles.meta import encode_variable_int
     body = bytes(encode_variable_int(delta)) + bytes(msg_bytes) + b'\x00\xff\x2f\x00'
     data = (b'MThd' + (6).to_bytes(4, 'big') + (1).to_bytes(2, 'big') + (1).to_bytes(2, 'big') +
             (480).to_bytes(2, 'big') + b'MTrk' + len(body).to_bytes(4, 'big') + body)
-    mid = mido.MidiFile(file=io.BytesIO(data))
+    mid = mido.MidiFile(file=io.BytesIO(data), **kw)
     return mid.tracks[0][0]
 
 
@@ -124,6 +124,21 @@ def check_accept(t, v, bs):
         return 'from_bytes-raises/' + sig(t, v), 'from_bytes raised %r' % (e,)
     if not (d == msg) or type(d) is not type(msg):
         return 'roundtrip/' + sig(t, v), 'from_bytes gave %r for %r' % (_short(d), _short(msg))
+    for how, arg in (('bytes', bytes(b)), ('tuple', tuple(b)), ('bytearray', bytearray(b))):
+        try:
+            d = mido.MetaMessage.from_bytes(arg)
+        except Exception as e:
+            return 'from_bytes-raises/%s/%s' % (how, sig(t, v)), 'from_bytes(%s) raised %r' % (how, e)
+        if not (d == msg):
+            return 'roundtrip/%s/%s' % (how, sig(t, v)), 'from_bytes(%s) gave %r' % (how, _short(d))
+    try:
+        # meta payloads are 8-bit: clip (which concerns MIDI data bytes) must not touch them
+        rc = through_track(b, 5, clip=True)
+        if not (rc == msg.copy(time=5)):
+            return 'track-roundtrip-clip/' + sig(t, v), 'track read with clip=True gave %r for %r' % (
+                _short(rc), _short(msg))
+    except Exception as e:
+        return 'track-read-raises/clip/' + sig(t, v), 'reading from a track with clip=True raised %r' % (e,)
     try:
         r = through_track(b, 5)
     except Exception as e:
